@@ -4,9 +4,12 @@ import (
 	"encoding/json"
 	"fmt"
 	"math"
+	"sort"
 	"strconv"
 	"strings"
 	"time"
+
+	"github.com/cube2222/octosql/octosql"
 )
 
 // Comparison of what `-o json` printed (decoded strictly with UseNumber by cli.DecodeJSONLines)
@@ -15,18 +18,18 @@ import (
 // formatter is transparent: floats are printed in shortest round-trip form, so the exact
 // comparison of the datasource's float parsing still applies.
 
-func numEq(path string, d json.Number, want float64, lit string, out *DiffSet) {
+func numEq(path *Path, d json.Number, want float64, lit string, out *DiffSet) {
 	got, err := strconv.ParseFloat(string(d), 64)
 	if err != nil {
-		out.Add(Diff{path, "value", fmt.Sprintf("printed number %q does not parse", string(d))})
+		out.Add(Diff{path.String(), "value", fmt.Sprintf("printed number %q does not parse", string(d))})
 		return
 	}
-	if df := floatDiff(path, got, want, lit); df != nil {
-		out.Add(*df)
+	if !FloatEq(got, want) {
+		out.Add(*floatDiff(path.String(), got, want, lit))
 	}
 }
 
-func strEq(path string, got, want string, out *DiffSet) {
+func strEq(path *Path, got, want string, out *DiffSet) {
 	if got == want {
 		return
 	}
@@ -36,12 +39,14 @@ func strEq(path string, got, want string, out *DiffSet) {
 			return
 		}
 	}
-	out.Add(Diff{path, "value", fmt.Sprintf("string %s printed as %s%s", trunc(strconv.Quote(want), 200), trunc(strconv.Quote(got), 200), firstByteDiff(got, want))})
+	out.Add(Diff{path.String(), "value", fmt.Sprintf("string %s printed as %s%s", trunc(strconv.Quote(want), 200), trunc(strconv.Quote(got), 200), firstByteDiff(got, want))})
 }
 
-// CompareDecodedJSON: decoded output value vs model value of a JSON input file.
-func CompareDecodedJSON(path string, d interface{}, m interface{}, present bool, out *DiffSet) {
-	add := func(class, what string) { out.Add(Diff{path, class, what}) }
+// CompareDecodedJSON: decoded output value vs model value of a JSON input file. t, if non-nil,
+// is the column type `--describe` reported (parsed by ParseTypeString); it only serves to
+// attribute the anticipated nested-null-in-union defect.
+func CompareDecodedJSON(path *Path, t *octosql.Type, d interface{}, m interface{}, present bool, out *DiffSet) {
+	add := func(class, what string) { out.Add(Diff{path.String(), class, what}) }
 	if !present || m == nil {
 		if d != nil {
 			add("value", fmt.Sprintf("JSON null/absent key printed as %v", d))
@@ -49,6 +54,10 @@ func CompareDecodedJSON(path string, d interface{}, m interface{}, present bool,
 		return
 	}
 	if d == nil {
+		if t != nil && t.TypeID == octosql.TypeIDUnion && HasNullLike(*t, m) {
+			add("nested-null-in-union", "JSON value "+trunc(Show(m), 120)+" under type "+trunc(TypeText(*t), 120)+" printed as null")
+			return
+		}
 		add("null-for-value", "JSON value "+trunc(Show(m), 120)+" printed as null")
 		return
 	}
@@ -81,8 +90,15 @@ func CompareDecodedJSON(path string, d interface{}, m interface{}, present bool,
 			add("structure", fmt.Sprintf("JSON array of %d elements printed with %d", len(x), len(l)))
 			return
 		}
+		var et *octosql.Type
+		if t != nil {
+			if lt := listType(*t); lt != nil {
+				et = lt.List.Element
+			}
+		}
 		for i := range x {
-			CompareDecodedJSON(fmt.Sprintf("%s[%d]", path, i), l[i], x[i], true, out)
+			CompareDecodedJSON(path.Index(i), et, l[i], x[i], true, out)
+			path.Pop()
 		}
 	case *Obj:
 		o, ok := d.(map[string]interface{})
@@ -95,16 +111,32 @@ func CompareDecodedJSON(path string, d interface{}, m interface{}, present bool,
 				add("structure", fmt.Sprintf("key %q of the JSON object is not printed", k))
 			}
 		}
-		for k, dv := range o {
+		keys := make([]string, 0, len(o))
+		for k := range o {
+			keys = append(keys, k)
+		}
+		sort.Strings(keys)
+		for _, k := range keys {
 			mv, ok := x.Get(k)
-			CompareDecodedJSON(path+"."+k, dv, mv, ok, out)
+			var ft *octosql.Type
+			if t != nil {
+				if st := structType(*t); st != nil {
+					for i := range st.Struct.Fields {
+						if st.Struct.Fields[i].Name == k {
+							ft = &st.Struct.Fields[i].Type
+						}
+					}
+				}
+			}
+			CompareDecodedJSON(path.Field(k), ft, o[k], mv, ok, out)
+			path.Pop()
 		}
 	}
 }
 
 // CompareDecodedCell: decoded output value vs the text of a CSV cell (or a lines text).
-func CompareDecodedCell(path string, d interface{}, cell string, out *DiffSet) {
-	add := func(class, what string) { out.Add(Diff{path, class, what}) }
+func CompareDecodedCell(path *Path, d interface{}, cell string, out *DiffSet) {
+	add := func(class, what string) { out.Add(Diff{path.String(), class, what}) }
 	if cell == "" {
 		if d != nil {
 			add("value", fmt.Sprintf("empty cell printed as %v", d))
